@@ -9,8 +9,13 @@
 (* termination the labelling is valid w.r.t. QuickShiftRef.                        *)
 (* AttachFirstRoot = TRUE models the mutation "attach the path to the first root   *)
 (* reached" and must produce a counterexample.                                     *)
-EXTENDS QuickShiftRef, TLC
-CONSTANTS N, Coords, Cuts, Mode, ShellK, AttachFirstRoot
+EXTENDS QuickShiftRef, PeriodicRef, TLC
+CONSTANTS N, Coords, Cuts, Mode, ShellK, AttachFirstRoot, Cell     \* Cell = <<>>: free space, else minimum image
+CellNone == <<>>
+Cell44 == <<4, 4>>
+Cell35 == <<3, 5>>
+Pt(p) == <<p[1], p[2]>>
+DD(p, q) == PD2(Pt(p), Pt(q), Cell)
 Item == 1..N
 NONE == 0
 VARIABLES P, W, cut, i, path, cur, root, pc, dm, gab   \* dm, gab: distance matrix / Gabriel graph, computed once in Init
@@ -35,8 +40,8 @@ NextOf(a) == IF Mode = "cut" THEN QsNext(a) ELSE GsNext(a)
 Perms == {f \in [Item -> Item] : \A a, b \in Item : a # b => f[a] # f[b]}
 Init == /\ P \in [Item -> Coords \X Coords] /\ W \in Perms
         /\ cut \in (IF Mode = "cut" THEN [Item -> Cuts] ELSE {[a \in Item |-> 0]})
-        /\ dm = [a \in Item |-> [b \in Item |-> SqDist(P[a], P[b])]]
-        /\ gab = (IF Mode = "cut" THEN <<>> ELSE GabrielMay(N, [a \in Item |-> [b \in Item |-> SqDist(P[a], P[b])]]))
+        /\ dm = [a \in Item |-> [b \in Item |-> DD(P[a], P[b])]]
+        /\ gab = (IF Mode = "cut" THEN <<>> ELSE GabrielMay(N, [a \in Item |-> [b \in Item |-> DD(P[a], P[b])]]))
         /\ i = 1 /\ path = <<>> /\ cur = NONE /\ root = [a \in Item |-> NONE] /\ pc = "outer"
 Outer == /\ pc = "outer" /\ i <= N
          /\ IF root[i] # NONE THEN i' = i + 1 /\ UNCHANGED <<path, cur, root, pc>>
